@@ -85,6 +85,23 @@ def build(ops, depth, route):
     return {"scripts": scripts, "keys": KEYS, "steps": steps}
 
 
+def clear_scenario(ops):
+    """every key known, then clear, then every pair of operations: what was cleared must be independent lists"""
+    pre = [C("p", A("a")), C("u", A("b")), A("q"), A("w"), C("r", A("a"), A("b"))]
+    steps = [[{"op": "assert", "e": 1, "term": t, "atEnd": True, "r": 0}] for t in pre]
+    steps.append([{"op": "clear", "e": 1}])
+    more = list(ops) + [("assertz", C("u", A("c")), 0), ("assertz", A("w"), 0), ("query", C("u", V(0)), 0)]
+    for step in range(2):
+        alts = []
+        for j, (kind, t, k) in enumerate(more):
+            if kind == "clear":
+                continue
+            goal = t if kind == "query" else C(kind, t)
+            alts.append({"op": "solve", "e": 1, "r": 100 + step, "goal": goal, "qnv": nvars(t), "k": k})
+        steps.append(alts)
+    return {"scripts": {}, "keys": KEYS, "steps": steps}
+
+
 def shard(ops, n, seed, keep):
     rnd = random.Random(seed)
     ops = list(ops)
@@ -129,6 +146,7 @@ def run(tier, seed):
         # several database operations inside one clause body, between two answers of an enumeration
         from . import c14
         chk.machine_family("ops-within-one-body", c14.body_scenarios(), features=features)
+        chk.machine_family("after-clear", [clear_scenario(ops)], features=features)
         chk.exhaustive = True
     else:
         ops = menu(FACTS_FULL, PATS_FULL)            # 51 operations
@@ -139,6 +157,7 @@ def run(tier, seed):
         chk.machine_family("assert_fact-d3", [build(q, 3, "assert_fact")], features=features)
         sub = shard(q, 0, seed, 18)
         chk.machine_family("api-d4", [build(sub, 4, "api")], features=features)
+        chk.machine_family("after-clear", [clear_scenario(q)], features=features)
         from . import c14
         chk.machine_family("ops-within-one-body", c14.body_scenarios(), features=features)
         chk.exhaustive = True
